@@ -592,6 +592,7 @@ let suite_stage t v =
   let idx = ref 0 in
   (* ghost bookkeeping for the oracles (from the ops and the implementation's own answers) *)
   let announced : (string, string) Hashtbl.t = Hashtbl.create 8 in          (* name -> announced hashes *)
+  let aged = ref false in                                                     (* time passed / the cache was cleaned *)
   let ann_prev : (string * string, string) Hashtbl.t = Hashtbl.create 8 in  (* (name,hash) -> prev *)
   let written : (string * string, (M.z * M.z)) Hashtbl.t = Hashtbl.create 8 in (* (name,hash) -> acknowledged written ranges *)
   let short_read = ref false and reannounce = ref false in
@@ -638,7 +639,16 @@ let suite_stage t v =
         oracle v "delivered_content_not_validated" (List.mem (tn, 0, m) (List.map (fun (a, _, c) -> (a, 0, c)) msn.sfinals) && !reannounce)) isn.sfinals;
     (* C05: one log record per validated version *)
     let rec dups = function [] -> false | (n, _, h, _) :: r -> List.exists (fun (n', _, h', _) -> n = n' && h = h') r || dups r in
-    if dups isn.slog then oracle v "logged_twice" (dups msn.slog);
+    if dups isn.slog then begin
+      (* by what the history contains: several versions of the duplicated name were announced (the
+         recorded one-version-per-name limits), or one version only - then: did the in-memory record
+         age out (time passed / cache cleaned) in between, or not even that *)
+      let rec dup_names = function [] -> [] | (n, _, h, _) :: r ->
+        if List.exists (fun (n', _, h', _) -> n = n' && h = h') r then n :: dup_names r else dup_names r in
+      let multi = List.exists (fun n -> List.length (Hashtbl.find_all announced n) > 1) (dup_names isn.slog) in
+      let name = if multi then "logged_twice" else if !aged then "logged_twice_after_record_aged_out" else "logged_twice_single_version" in
+      oracle v name (dups msn.slog)
+    end;
     (* C04: never logged before its predecessor *)
     let rec order seen = function
       | [] -> ()
@@ -676,6 +686,10 @@ let suite_stage t v =
                       then reannounce := true end);
            if not (List.mem hs (Hashtbl.find_all announced ns)) then Hashtbl.add announced ns hs;
            Hashtbl.replace ann_prev (ns, hs) (string_of_name p.M.p_prev);
+           (* Receive first has the receive log read back to the file's time (clamped as in Received()) *)
+           let monthago = M.Z.sub now (z_of_int (30 * 86400)) in
+           let whn = if M.Z.ltb now p.M.p_time then now else if M.Z.ltb p.M.p_time monthago then monthago else p.M.p_time in
+           st := fst (M.sstep md5_name !st (M.OBuildCache (now, whn)));
            let (st', mok) = M.receive !st p d rerr in
            if mok <> iok then diff v ("receive@" ^ ks);
            if iok then begin
@@ -840,9 +854,11 @@ let suite_stage t v =
            st := fst (M.sstep md5_name !st (M.OImage img))
        | `AG n -> ignore (next t); st := fst (M.sstep md5_name !st (M.OAge n))
        | `AA d ->
+           aged := true;
            ignore (next t);
            st := fst (M.sstep md5_name (M.settle md5_name M.sETTLE_FUEL !st now) (M.OAgeAll d))
        | `CC ->
+           aged := true;
            let n = ni t in
            let ic = times n (fun () -> let nm = str_of_hex (next t) in let stt = ni t in (nm, stt)) in
            st := fst (M.sstep md5_name (M.settle md5_name M.sETTLE_FUEL !st now) (M.OCleanCache now));
